@@ -163,7 +163,7 @@ func c10Step(r *vRun, i int, op vOp) (bool, *drv.Failure) {
 		return telem.TimeStamp(ts)
 	}
 	walkFwd, walkBwd := false, false // directions stepped since the last seek
-	fwdRun, bwdRun := false, false // a SeekFirst/SeekLast-started run in one direction is in progress
+	fwdRun, bwdRun := false, false   // a SeekFirst/SeekLast-started run in one direction is in progress
 	var seen map[int64]int
 	for ci, c := range op.Cmds {
 		prev := it.View()
